@@ -147,5 +147,15 @@ theorem firstRest_setKeyed (hc : live cleared = false) (hm : ∀ x, live x = tru
     · simp [liveAbs, hnew]
     · rw [liveAbs_any m live a m' hm hml]; exact hany
 
+/-- nothing matches: the list is returned as it is -/
+theorem firstRest_unmatched (l : List α) (need : Bool) (h : l.any m = false) :
+    firstRest m id upd cleared l need = .ok (l, none, []) := by
+  induction l with
+  | nil => rfl
+  | cons x xs ih =>
+    simp only [List.any_cons, Bool.or_eq_false_iff] at h
+    unfold firstRest
+    simp only [h.1, Bool.false_eq_true, if_false, ih h.2, bind, Except.bind, pure, Except.pure]
+
 end loops
 end ModVerif.Modfile.Edit
